@@ -326,6 +326,17 @@ func makeField(v reflect.Value, params fieldParameters) (encoder, error) {
 			tag.class = ClassUniversal
 			tag.constructed = false
 			tag.tagNumber = uint64(params.stringType)
+			if params.stringType == 0 {
+				// no string kind in the field tag: use the ASN.1 type the Go type stands for
+				switch fieldType {
+				case UTF8StringType:
+					tag.tagNumber = TagUTF8String
+				case IA5StringType:
+					tag.tagNumber = TagIA5String
+				case GraphicStringType:
+					tag.tagNumber = TagGraphicString
+				}
+			}
 
 			berType.value = stringEncoder(v.String())
 		}
